@@ -25,14 +25,14 @@ import (
 )
 
 type Case struct {
-	Op       ops.WOp     `json:"op"`
-	Prepare  bool        `json:"prepare_stmt"`
-	HookWrites bool      `json:"hook_writes,omitempty"` // before-hooks write a marker row through the *gorm.DB they are given
-	ErrClass string      `json:"err_class,omitempty"` // injected errors wrap this well-known error (deadline, canceled, txdone, eof)
-	PoolShim bool        `json:"pool_shim"`      // gorm is opened on a ConnPool wrapper (ConnPoolBeginner path) instead of *sql.DB
-	MaxSites int         `json:"max_sites"`      // 0 = every site
-	Pick     int64       `json:"pick_seed"`      // seeds the site sample
-	Only     []ops.Fault `json:"only,omitempty"` // replay/shrink: run exactly these faults
+	Op         ops.WOp     `json:"op"`
+	Prepare    bool        `json:"prepare_stmt"`
+	HookWrites bool        `json:"hook_writes,omitempty"` // before-hooks write a marker row through the *gorm.DB they are given
+	ErrClass   string      `json:"err_class,omitempty"`   // injected errors wrap this well-known error (deadline, canceled, txdone, eof)
+	PoolShim   bool        `json:"pool_shim"`             // gorm is opened on a ConnPool wrapper (ConnPoolBeginner path) instead of *sql.DB
+	MaxSites   int         `json:"max_sites"`             // 0 = every site
+	Pick       int64       `json:"pick_seed"`             // seeds the site sample
+	Only       []ops.Fault `json:"only,omitempty"`        // replay/shrink: run exactly these faults
 }
 
 type Prop struct{}
@@ -110,7 +110,9 @@ func (Prop) Shrink(ci interface{}) []interface{} {
 }
 
 func (p Prop) exec(c *Case, f *ops.Fault) (*ops.SingleRun, error) {
-	o := env.Options{PrepareStmt: c.Prepare}
+	// fixed clock: hooks that write rows consume clock readings in the (map-iteration)
+	// order gorm visits associations, which must not reach the stored timestamps
+	o := env.Options{PrepareStmt: c.Prepare, FixedClock: c.HookWrites}
 	if c.PoolShim {
 		o.WrapPool = func(db *sql.DB, drv *simdrv.Sim) gorm.ConnPool { return simpool.New(db, drv) }
 	}
@@ -148,7 +150,9 @@ func (p Prop) execCtx(c *Case, cf *ops.CancelFault) (*ops.SingleRun, []string, e
 	var pool *simpool.Pool
 	ctx, cancel := context.WithCancel(context.Background())
 	defer cancel()
-	o := env.Options{PrepareStmt: c.Prepare}
+	// fixed clock: hooks that write rows consume clock readings in the (map-iteration)
+	// order gorm visits associations, which must not reach the stored timestamps
+	o := env.Options{PrepareStmt: c.Prepare, FixedClock: c.HookWrites}
 	o.WrapPool = func(db *sql.DB, drv *simdrv.Sim) gorm.ConnPool {
 		pool = simpool.New(db, drv)
 		return pool
@@ -205,7 +209,7 @@ func (p Prop) Run(ci interface{}, focus *core.Violation) *core.Outcome {
 		v := &core.Violation{Class: class, Key: key, Detail: detail}
 		h := core.Hash(sr.TraceHashParts()...)
 		if f != nil {
-			h = ops.FaultedHash(baseHash, f.String(), sr, fmt.Sprint(sr.D1 == base.D1))
+			h = ops.FaultedHash(baseHash, f.HashName(), sr, fmt.Sprint(sr.D1 == base.D1))
 		}
 		if !out.Report(v, focus, h) {
 			return false
@@ -298,7 +302,7 @@ func (p Prop) Run(ci interface{}, focus *core.Violation) *core.Outcome {
 		}
 		if fired {
 			out.Count("fired:"+kind, 1)
-			h := ops.FaultedHash(baseHash, f.String(), sr, fmt.Sprint(sr.D1 == base.D1))
+			h := ops.FaultedHash(baseHash, f.HashName(), sr, fmt.Sprint(sr.D1 == base.D1))
 			if !seen[h] {
 				seen[h] = true
 				out.Hashes = append(out.Hashes, h)
@@ -387,4 +391,13 @@ func diff(a, b string) string {
 		}
 	}
 	return sb.String()
+}
+
+// DebugParts returns the rendered trace of the fault-free run (scratch tooling).
+func DebugParts(ci interface{}) []string {
+	sr, err := Prop{}.exec(ci.(*Case), nil)
+	if err != nil {
+		return []string{"error: " + err.Error()}
+	}
+	return sr.TraceHashParts()
 }
